@@ -17,7 +17,10 @@
      x/delegation/keeper/abci.go            EndBlock
      x/delegation/keeper/genesis.go         InitGenesis (undelegation part)
      x/delegation/types/keys.go             the key constructors
-     x/operator/keeper/slash.go             SlashFromUndelegation, SlashAssets (the part after the proportion is known)
+     x/operator/keeper/slash.go             SlashFromUndelegation, SlashAssets (the part after the proportion is known; the
+                                            undelegation walk runs when SlashEventHeight <= BlockHeight, fix 9b113a9)
+     x/delegation/keeper/update_native_restaking_balance.go  UpdateNSTBalance (op NstBalance: correspondence and monitors
+                                            only, the theorems are about histories without it, see wf_op)
      x/dogfood/keeper/impl_delegation_hooks.go AfterUndelegationStarted (hold placed iff the operator is an active validator)
 
    Stores are key-sorted association lists keyed by the REAL key strings (Base/Store.v); iteration order is byte order.
@@ -86,7 +89,9 @@ Inductive gev :=
 | GDep (a : string) (x : Z)      (* deposited (incl. genesis-loaded deposits) *)
 | GWdr (a : string) (x : Z)      (* withdrawn *)
 | GSl (a : string) (x : Z)       (* removed by slashing (pool or pending record) *)
-| GLost (a : string) (x : Z).    (* owed amount of a record that was overwritten by another record with the same key *)
+| GLost (a : string) (x : Z)     (* owed amount of a record that was overwritten by another record with the same key *)
+| GNstP (a : string) (x : Z)     (* positive native-restaking balance adjustment (virtual deposit) *)
+| GNstM (a : string) (x : Z).    (* amount removed by a negative native-restaking balance adjustment *)
 
 Record st := mkSt {
   height : Z;
@@ -361,7 +366,7 @@ Fixpoint slash_pools (op : string) (prop : Z) (pools : store oa_row) (d : store 
    CheckSlashParameter + LegacyMinDec, which belong to C04's model) *)
 Definition slash (s : st) (op : string) (eh prop : Z) : option st :=
   if (prop <? 0) || (prop >? P) then None else
-  let '(u', ev1) := if eh <? height s then slash_records op eh prop (ur s) else (ur s, []) in
+  let '(u', ev1) := if eh <=? height s then slash_records op eh prop (ur s) else (ur s, []) in
   let '(o', d', l', ev2) := slash_pools op prop (oa s) (dg s) (sl s) in
   Some (w_glog ((ev1 ++ ev2) ++ glog s)%list (w_sl l' (w_dg d' (w_oa o' (w_ur u' s))))).
 
@@ -400,6 +405,94 @@ Definition end_block (s : st) : st :=
             end in
   w_height (height s + 1) s'.
 
+(* ---------- UpdateNSTBalance (x/delegation/keeper/update_native_restaking_balance.go) ---------- *)
+Definition with_act (r : urec) (act : Z) : urec :=
+  mkUR (ur_staker r) (ur_asset r) (ur_op r) (ur_tx r) (ur_bn r) (ur_cn r) (ur_nonce r) (ur_amt r) act.
+
+(* IterateUndelegationsByStakerAndAsset(isUpdate = true) with the closure of UpdateNSTBalance: walks the staker-index
+   entries under staker/asset/ in key order, reads each record from the live store, lowers ActualCompletedAmount and
+   the staker's TotalDepositAmount, writes the record back, stops when nothing is left to slash.
+   Result: state, amount still to slash, amount taken from records. *)
+Fixpoint nst_records (entries : list (string * string)) (s : st) (sk : string) (pend acc : Z) : option (st * Z * Z) :=
+  match entries with
+  | [] => Some (s, pend, acc)
+  | (_, rk) :: rest =>
+      match sget (ur s) rk with
+      | None => None
+      | Some r =>
+          let pend' := pend - ur_act r in
+          let sl := if 0 <? pend' then ur_act r else pend in
+          match upd_sa s sk (- sl) 0 0 with
+          | None => None
+          | Some s1 =>
+              let s2 := w_ur (sset (ur s1) rk (with_act r (ur_act r - sl))) s1 in
+              if 0 <? pend' then nst_records rest s2 sk pend' (acc + sl) else Some (s2, pend', acc + sl)
+          end
+      end
+  end.
+
+Definition key_operator (k : string) : string := key_asset (key_asset k).   (* third component of staker/asset/operator *)
+
+(* TotalDelegatedAmountForStakerAsset *)
+Fixpoint nst_total (rows : list (string * dg_row)) (s : st) (asset : string) : option Z :=
+  match rows with
+  | [] => Some 0
+  | (k, row) :: rest =>
+      if dg_sh row =? 0 then nst_total rest s asset
+      else match sget (oa s) (oa_key (key_operator k) asset) with
+           | None => None
+           | Some o => match tokens_from_shares (dg_sh row) (oa_tsh o) (oa_amt o), nst_total rest s asset with
+                       | Some t, Some r => Some (t + r)
+                       | _, _ => None
+                       end
+           end
+  end.
+
+(* the proportional removal from every delegation of the staker: RemoveShare(isUndelegation = false, ...) *)
+Fixpoint nst_shares (rows : list (string * dg_row)) (s : st) (staker asset : string) (prop acc : Z) : option (st * Z) :=
+  match rows with
+  | [] => Some (s, acc)
+  | (k, row) :: rest =>
+      let op := key_operator k in
+      let sh := dec_mul (dg_sh row) prop in
+      if sh <=? 0 then None
+      else match sget (oa s) (oa_key op asset) with None => None | Some o =>
+      if sh >? oa_tsh o then None else
+      match (if oa_tsh o =? sh then Some (oa_amt o) else tokens_from_shares sh (oa_tsh o) (oa_amt o)) with None => None | Some tok =>
+      match upd_oa s (oa_key op asset) (- tok) 0 (- sh) 0 with None => None | Some s1 =>
+      match upd_dg s1 (dg_key staker asset op) (- sh) 0 with None => None | Some (s2, isz) =>
+      match (if isz then delete_staker s2 (oa_key op asset) staker else Some s2) with None => None | Some s3 =>
+      match upd_sa s3 (sa_key staker asset) (- tok) 0 0 with None => None | Some s4 =>
+      nst_shares rest s4 staker asset prop (acc + tok) end end end end end end
+  end.
+
+Definition nst_balance (s : st) (staker asset : string) (x : Z) : option st :=
+  let sk := sa_key staker asset in
+  if 0 <? x then
+    match upd_sa s sk x x 0 with None => None | Some s1 => Some (log_ev (GNstP asset x) s1) end
+  else if x <? 0 then
+    match sget (sa s) sk with None => None | Some info =>
+    let pend0 := - x - sa_wd info in
+    let sfw := if 0 <? pend0 then sa_wd info else - x in
+    match upd_sa s sk (- sfw) (- sfw) 0 with None => None | Some s1 =>
+    if 0 <? pend0 then
+      match nst_records (prefix_iter (join2 staker asset ++ "/") (sidx s1)) s1 sk pend0 0 with None => None | Some (s2, pend1, a1) =>
+      if 0 <? pend1 then
+        let rows := prefix_iter (join2 staker asset ++ "/") (dg s2) in
+        match nst_total rows s2 asset with None => None | Some total =>
+        if total =? 0 then Some (log_ev (GNstM asset (sfw + a1)) s2)
+        else
+          let p0 := dec_quo (dec_of_int pend1) (dec_of_int total) in
+          let prop := if p0 >? P then P else p0 in
+          match nst_shares rows s2 staker asset prop 0 with None => None | Some (s3, a2) =>
+          Some (log_ev (GNstM asset (sfw + a1 + a2)) s3) end
+        end
+      else Some (log_ev (GNstM asset (sfw + a1)) s2)
+      end
+    else Some (log_ev (GNstM asset sfw) s1)
+    end end
+  else Some s.
+
 (* ---------- the step function ---------- *)
 Inductive op :=
 | Deposit (staker asset : string) (x : Z)
@@ -410,12 +503,8 @@ Inductive op :=
 | Slash (operator : string) (eh : Z) (prop : option Z)   (* None: rejected before the asset walk (C04's part) *)
 | HoldInc (rk : string)
 | HoldDec (rk : string)
-| EndBlock.
-
-(* dogfood status of an operator, carried in [validators]: an entry "op" = active validator (the hook places a hold);
-   an entry "!op" = the operator opted in with a key and opted out again before the key became active: the hook reads
-   GetOperatorOptOutFinishEpoch = -1, builds a nil store key and panics (store.Get(nil)) - the undelegation fails *)
-Definition hook_panics (s : st) (op : string) : bool := mem (String "!"%char op) (validators s).
+| EndBlock
+| NstBalance (staker asset : string) (x : Z).   (* DelegationKeeper.UpdateNSTBalance; outside the theorem fragment, see wf_op *)
 
 Definition of_opt (s : st) (o : option st) : st * res :=
   match o with Some s' => (s', ROk) | None => (s, RErr) end.
@@ -425,17 +514,14 @@ Definition step (s : st) (o : op) : st * res :=
   | Deposit a b x => of_opt s (deposit s a b x)
   | Withdraw a b x => of_opt s (withdraw s a b x)
   | Delegate a b c x => of_opt s (delegate s a b c x)
-  | Undelegate a b c x n tx =>
-      match undelegate s a b c x n tx with
-      | Some (s', _) => if hook_panics s c then (s, RPanic) else (s', ROk)
-      | None => (s, RErr)
-      end
+  | Undelegate a b c x n tx => of_opt s (option_map fst (undelegate s a b c x n tx))
   | GenesisLoad r => genesis_load s r
   | Slash o eh (Some p) => of_opt s (slash s o eh p)
   | Slash _ _ None => (s, RErr)
   | HoldInc rk => hold_inc s rk
   | HoldDec rk => hold_dec s rk
   | EndBlock => (end_block s, ROk)
+  | NstBalance a b x => of_opt s (nst_balance s a b x)
   end.
 
 Definition run (ops : list op) (s : st) : st := fold_left (fun s o => fst (step s o)) ops s.
@@ -545,6 +631,8 @@ Definition gev_net (a : string) (e : gev) : Z :=
   | GWdr b x => - if_eq b a x
   | GSl b x => - if_eq b a x
   | GLost b x => - if_eq b a x
+  | GNstP b x => if_eq b a x
+  | GNstM b x => - if_eq b a x
   end.
 Definition gev_stake (a : string) (e : gev) : Z :=     (* deposits minus withdrawals only *)
   match e with
